@@ -210,6 +210,10 @@ def afb1d_atrous(x, h0, h1, mode='periodic', dim=-1, dilation=1):
         h1 = h1.reshape(*shape)
     h = torch.cat([h0, h1] * C, dim=0)
 
+    # Without downsampling, periodization is plain periodic extension
+    if mode == 'per' or mode == 'periodization':
+        mode = 'periodic'
+
     # Calculate the pad size
     L2 = (L * dilation)//2
     pad = (0, 0, L2-dilation, L2) if d == 2 else (L2-dilation, L2, 0, 0)
